@@ -182,6 +182,10 @@ pub struct SubSpec {
     /// may belong to another store) from inside on_notify
     #[serde(default)]
     pub forwards: bool,
+    /// client-style operations executed (once) from inside on_unsubscribe, logged with thread
+    /// index 2000 + subscriber id - e.g. unsubscribing the same object from another store
+    #[serde(default)]
+    pub on_unsub_ops: Vec<Op>,
 }
 
 #[derive(Clone, Debug, PartialEq, Eq, Hash, Serialize, Deserialize)]
